@@ -3,6 +3,7 @@ Model/Dispatch — maps protocol requests to model functions (test infrastructur
 -/
 import Pycdlib.Model.Names
 import Pycdlib.Model.Mangle
+import Pycdlib.Model.Dates
 namespace Pycdlib
 
 def parseCps (s : String) : Option (List Nat) :=
@@ -47,6 +48,10 @@ def dispatchPure (toks : List String) : Option String :=
     else
       let (b, e) := mangleFile up s l
       pure (cpsToString b ++ " " ++ cpsToString e)
+  | ["civil", t] => do let t ← t.toInt?; pure (civil t).show
+  | ["dates", t, off, flags] => do
+    let t ← t.toInt?; let off ← off.toInt?; let fl ← flags.toNat?
+    pure s!"{gmtoffset (civil (t + off)) (civil t)} {toHex (drDate t off)} {toHex (vdDate t off)} {toHex (udfDate t off)} {toHex (tfRecord fl t off)}"
   | _ => none
 
 def dispatch (toks : List String) : IO String :=
